@@ -90,21 +90,24 @@ Section Dict.
   Definition dstep (st : dstate) (o : op) : dstate * out :=
     match o with
     | OCreate n0 =>
-      let n := norm n0 in
-      if name_eqb n INBOX then (st, out_no 0)
-      else if amem n (d_set st) then (st, out_no 1)
-      else ({| d_inbox := d_inbox st; d_set := aset n (fresh (d_next st)) (d_set st);
-               d_subs := d_subs st; d_next := d_next st + 1 |},
-            {| o_cond := COk; o_list := []; o_status := None; o_newid := Some (d_next st) |})
+      match create_name n0 with
+      | inr k => (st, out_no k)
+      | inl n =>
+        if amem n (d_set st) then (st, out_no 1)
+        else ({| d_inbox := d_inbox st; d_set := aset n (fresh (d_next st)) (d_set st);
+                 d_subs := d_subs st; d_next := d_next st + 1 |},
+              {| o_cond := COk; o_list := []; o_status := None; o_newid := Some (d_next st) |})
+      end
     | ODelete n0 =>
       let n := norm n0 in
       if name_eqb n INBOX then (st, out_no 0)
       else if amem n (d_set st) then (with_set st (adel n (d_set st)), out_ok)
       else (st, out_no 2)
     | ORename a0 b0 =>
-      let a := norm a0 in let b := norm b0 in
-      if name_eqb b INBOX then (st, out_no 0)
-      else
+      let a := norm a0 in
+      match rename_dest b0 with
+      | inr k => (st, out_no k)
+      | inl b =>
         let t := d_tree st in
         match tget t a, tget t b with
         | None, _ => (st, out_no 2)
@@ -118,9 +121,11 @@ Section Dict.
                | None => (st, out_cond CExc)
                end
         end
+      end
     | OSubscribe n0 =>
-      ({| d_inbox := d_inbox st; d_set := d_set st;
-          d_subs := aset (norm n0) true (d_subs st); d_next := d_next st |}, out_ok)
+      if inbox_case_bad (norm n0) then (st, out_no 4)
+      else ({| d_inbox := d_inbox st; d_set := d_set st;
+               d_subs := aset (norm n0) true (d_subs st); d_next := d_next st |}, out_ok)
     | OUnsubscribe n0 =>
       ({| d_inbox := d_inbox st; d_set := d_set st;
           d_subs := aset (norm n0) false (d_subs st); d_next := d_next st |}, out_ok)
